@@ -24,7 +24,7 @@ variable {ν : Type} [NumOps ν]
 /-! ## stacks up to the line marker -/
 
 /-- a frame without the line marker (the only field an expression may update in the caller's frame) -/
-def coreL (fr : Frame) : Frame := { fr with line := 0 }
+def coreL (fr : Frame) : Frame := { fr with line := 0, started := false }
 
 def normL : List Frame → List Frame
   | [] => []
